@@ -228,7 +228,38 @@ class World:
             a.add_precondition(self.expr(pre, scope))
         for ed in ad.get("effects", []):
             self.add_effect(a, ed, scope)
+        se = ad.get("simeff")
+        if se is not None:
+            a.set_simulated_effect(self.simulated_effect(se, scope))
         return a
+
+    def simulated_effect(self, se, scope=None):
+        """Simulated effect = table look-up on the values of some ground fluents."""
+        import warnings
+        from unified_planning.model import SimulatedEffect
+
+        targets = [self.expr(fe, scope) for fe in se["fluents"]]
+        reads = [self.expr(fe) for fe in se.get("reads", [])]
+        table = [(list(k), vals) for k, vals in se.get("table", [])]
+        default = se["default"]
+        world = self
+
+        def fn(problem, state, actual_params):
+            cb = world.callbacks
+            if cb is not None and hasattr(cb, "simeff_call"):
+                cb.simeff_call(se.get("name", "simeff"))
+            key = []
+            for r in reads:
+                v = state.get_value(r)
+                key.append(plain(v.object() if v.is_object_exp() else v.constant_value()))
+            for k, vals in table:
+                if k == key:
+                    return [world.expr(v) for v in vals]
+            return [world.expr(v) for v in default]
+
+        with warnings.catch_warnings():
+            warnings.simplefilter("ignore")
+            return SimulatedEffect(targets, fn)
 
     def add_effect(self, a, ed, scope):
         fl = self.expr(ed["fluent"], scope)
@@ -289,7 +320,7 @@ def plain(x):
     if isinstance(x, int):
         return x
     if isinstance(x, Fraction):
-        return str(x)
+        return int(x) if x.denominator == 1 else str(x)
     if isinstance(x, float):
         return str(Fraction(x))
     if hasattr(x, "name"):
